@@ -255,11 +255,13 @@ def write_evidence(prop, mod, ctx, tier, seed, wall, status, listed, unlisted, m
         "exhaustive": False,
     }
     try:
-        from .loader import FP
+        from .loader import FP, load
+        from . import reach
 
         cov["fp_events"] = dict(FP.events)
-    except Exception:
-        pass
+        cov["reached_lines"] = reach.summarise(ctx.reach, load(), getattr(mod, "ANCHORS", None))
+    except Exception as e:  # noqa: BLE001
+        cov["reached_lines"] = "unavailable: %r" % (e,)
     ev = {
         "property_id": prop,
         "tier": tier,
